@@ -36,9 +36,11 @@ void h_tokenize(void)
     buf[__verif_len] = 0;
     int cnt;
     Token *r = tokenize(buf, &cnt);
-    VERIF_COVER(r != NULL && __verif_len == 5);
+    /* one cover point per obligation (each extra one costs a further solver pass of ~40 s) */
 #ifdef LEX_COVER_NULL
     VERIF_COVER(r == NULL);
+#else
+    VERIF_COVER(r != NULL && __verif_len == 5);
 #endif
 }
 
